@@ -43,6 +43,10 @@ pub open spec fn sm_frame_but_counter(a: &StateMachine, b: &StateMachine) -> boo
 pub open spec fn painter_keeps_lines(a: &Painter, b: &Painter) -> bool {
     a.minus_lines@ == b.minus_lines@ && a.plus_lines@ == b.plus_lines@
 }
+/// the diff type a hunk state carries (two-way for every other state)
+pub open spec fn hunk_dt(s: State) -> DiffType {
+    match s { State::HunkHeader(d, _, _, _) => d, State::HunkMinus(d, _) => d, State::HunkZero(d, _) => d, State::HunkPlus(d, _) => d, _ => DiffType::Unified }
+}
 /// What `handle_hunk_line` may add for the current line: the prepared line (marker column of the
 /// new state's diff type removed; nothing removed under word-diff), or - for a line that is not a
 /// hunk line (e.g. `\ No newline at end of file`) - the tab-expanded raw line.
@@ -51,7 +55,7 @@ pub open spec fn hhl_entry_ok(line: Seq<char>, raw_line: Seq<char>, tab_cfg: &Ta
         State::HunkMinus(d, _) => e == prepare_spec(line, n_parents_spec(d), tab_cfg),
         State::HunkPlus(d, _) => e == prepare_spec(line, n_parents_spec(d), tab_cfg),
         State::HunkZero(d, _) => e == prepare_spec(line, if word_diff() { 0usize } else { n_parents_spec(d) }, tab_cfg)
-                                 || (new_state == State::HunkZero(DiffType::Unified, None) && e == vis(expand_spec(raw_line, tab_cfg))),
+                                 || (new_state matches State::HunkZero(_, None) && e == vis(expand_spec(raw_line, tab_cfg))),
         _ => false,
     }
 }
